@@ -110,6 +110,7 @@ func (ts *TimedSched) sched() {
 	for {
 		select {
 		case task := <-ts.chTask:
+			verifYield("sched.task")
 			now := time.Now()
 			if now.After(task.ts) {
 				// already delayed! execute immediately
@@ -153,6 +154,7 @@ func (ts *TimedSched) prepend() {
 			// swap slices to minimize time under lock
 			tasks, ts.prependTasks = ts.prependTasks, tasks[:0]
 			ts.prependLock.Unlock()
+			verifYield("sched.prepend")
 
 			for k := range tasks {
 				select {
@@ -174,6 +176,7 @@ func (ts *TimedSched) Put(f func(), deadline time.Time) {
 	ts.prependLock.Lock()
 	ts.prependTasks = append(ts.prependTasks, timedFunc{f, deadline})
 	ts.prependLock.Unlock()
+	verifYield("sched.put")
 
 	select {
 	case ts.chPrependNotify <- struct{}{}:
